@@ -207,6 +207,7 @@ func (c *Component) handleDHCPv6Solicit(pkt *dataplane.ParsedPacket, msg *dhcp6.
 			EncapIfIndex:  pkt.SwIfIndex,
 			State:         "soliciting",
 			GroupName:     match.Name,
+			MixedAccess:   c.isMixedAccessSVLAN(pkt.OuterVLAN),
 		}
 
 		c.sessionIndex.Store(sessID, newSess)
